@@ -28,6 +28,46 @@ macro_rules! k {
     };
 }
 
+// S10: sub = add(lhs, neg(rhs)). For rhs != MIN neg(rhs) is a fixnum (c01_neg checks neg on its own,
+// including MIN -> 2^55 as a bignum); the model below is neg restricted to that case, so that the
+// Fixnum x Integer arm of add (a TypedArenaPtr deref, DESIGN P18) is not entered on the
+// assumed-away MIN path, which CBMC would otherwise still have to encode.
+pub(super) fn neg_fixnum_not_min(n: Number, _arena: &mut Arena) -> Number {
+    match n {
+        Number::Fixnum(f) => {
+            kani::assume(f.get_num() != Fixnum::MIN);
+            Number::Fixnum(Fixnum::build_with_checked(-f.get_num()).unwrap())
+        }
+        _ => {
+            kani::assume(false);
+            n
+        }
+    }
+}
+
+macro_rules! k_negstub {
+    ($name:ident, $u:expr, |$arena:ident| $body:block) => {
+        #[kani::proof]
+        #[kani::unwind($u)]
+        #[kani::stub(under_model, under_model_yes)]
+        #[kani::stub(arcu::epoch_counters::with_thread_local_epoch_counter, st_epoch)]
+        #[kani::stub(crate::machine::machine_state::MachineState::evaluation_error, st_ms_eval_error)]
+        #[kani::stub(crate::machine::machine_state::MachineState::error_form, st_ms_error_form)]
+        #[kani::stub(zero_divisor_eval_error, st_zero)]
+        #[kani::stub(undefined_eval_error, st_undef)]
+        #[kani::stub(numerical_type_error, st_type)]
+        #[kani::stub(<dashu::integer::IBig as std::convert::From<i64>>::from, rec_from_i64)]
+        #[kani::stub(<dashu::integer::IBig as std::convert::From<isize>>::from, rec_from_isize)]
+        #[kani::stub(crate::arithmetic::binary_pow, rec_binary_pow)]
+        #[kani::stub(neg, neg_fixnum_not_min)]
+        fn $name() {
+            let mut arena_v = crate::arena::verif_arena_common::BareArena::new();
+            let $arena = arena_v.get();
+            $body;
+        }
+    };
+}
+
 k!(c01_add, 10, |arena| {
     let a = any_fixnum();
     let b = any_fixnum();
@@ -42,7 +82,7 @@ k!(c01_add, 10, |arena| {
     kani::cover!(exact == FMAX);
 });
 
-k!(c01_sub, 10, |arena| {
+k_negstub!(c01_sub, 10, |arena| {
     let a = any_fixnum();
     let b = any_fixnum();
     // b == MIN makes neg(b) a bignum and the Fixnum x Integer arm reads it back through
@@ -125,7 +165,7 @@ k!(c01_bitops, 10, |arena| {
 // ---- multiplication: fits-i64 path (result through fixnum!) ----
 macro_rules! mul_small {
     ($name:ident, $bx:expr, $by:expr) => {
-        divlike!($name, $bx, $by, i128);
+        mul_small!($name, $bx, $by, i128);
     };
     // $t: integer type of the oracle arithmetic; it must hold 2^($bx + $by) (a narrower
     // multiplier is a much smaller SAT problem than the 128-bit one)
@@ -136,7 +176,7 @@ macro_rules! mul_small {
             kani::assume(a.get_num() > -(1i64 << $bx) && a.get_num() < (1i64 << $bx));
             kani::assume(b.get_num() > -(1i64 << $by) && b.get_num() < (1i64 << $by));
             let (x, y) = (a.get_num() as $t, b.get_num() as $t);
-            let exact = x * y;
+            let exact = (x * y) as i128;
             match mul(Number::Fixnum(a), Number::Fixnum(b), arena) {
                 Ok(r) => check_via_from(r, exact),
                 Err(_) => assert!(false),
@@ -144,7 +184,7 @@ macro_rules! mul_small {
         });
     };
 }
-mul_small!(c01_mul_16x16, 16, 16);
+mul_small!(c01_mul_16x16, 16, 16, i64);
 mul_small!(c01_mul_55x7, 55, 7);
 mul_small!(c01_mul_7x55, 7, 55);
 mul_small!(c01_mul_32x31, 32, 31);
@@ -243,6 +283,7 @@ macro_rules! divlike {
         });
     };
 }
+divlike!(c01_div_rem_mod_8x8, 8, 8, i32);
 divlike!(c01_div_rem_mod_16x16, 16, 16, i64);
 divlike!(c01_div_rem_mod_55x8, 55, 8);
 divlike!(c01_div_rem_mod_24x24, 24, 24, i64);
@@ -257,7 +298,7 @@ k!(c01_idiv_min_by_minus_one, 10, |arena| {
     std::mem::forget(r);
 });
 
-k!(c01_int_floor_div, 10, |arena| {
+k_negstub!(c01_int_floor_div, 10, |arena| {
     let a = any_fixnum();
     let b = any_fixnum();
     let (x, y) = (a.get_num() as i32, b.get_num() as i32);
